@@ -184,6 +184,21 @@ def weighted(*pairs):
     return st.sampled_from(idx).flatmap(lambda i: pairs[i][0])
 
 
+def _nominal(rs, nb, Th, nc, flag, arg):
+    """nominal input trajectory of a solve: None, a dense random tensor, or (one in three of the given ones) a CONSTANT nominal broadcast
+    over the horizon with expand() - a stride-0 view, every time step shares memory.  Returns (tensor or None, bitwise copy, label).
+    A solver that builds its result in place on the caller's nominal (or reads it after writing part of it) is only visible on such a
+    view, and only if the caller's tensor is compared afterwards (seed C14e)."""
+    if not flag:
+        return None, None, "nominal:none"
+    if arg % 3 == 0 and Th >= 2:
+        base = torch.tensor(rs.randn(nb, 1, nc))
+        ut = base.expand(nb, Th, nc)
+        return ut, ut.clone(), "nominal:expanded_stride0"
+    ut = torch.tensor(rs.randn(nb, Th, nc))
+    return ut, ut.clone(), "nominal:dense"
+
+
 class LQRHist(Sub):
     """ops of a history on ONE system object:  solve = new LQR object (new Q, p, x_init) with the full horizon T;  solveT = new LQR
     object with a shorter horizon 1 + arg % T (an LTV system with T matrices accepts every horizon <= T);  again = the PREVIOUS LQR
@@ -234,9 +249,12 @@ class LQRHist(Sub):
                     # same LQR instance, same cost data, new initial state (and nominal inputs)
                     Q, p, Th = cur
                     x0 = rs.randn(nb, ns) * 2
-                    ut = Tn(rs.randn(nb, Th, nc)) if flag else None
+                    ut, ut_keep, nlab = _nominal(rs, nb, Th, nc, flag, arg)
+                    rec.label(nlab)
                     with rec.sut("LQR(second call on one instance)"):
                         x, u, cost = lqr(Tn(x0), u_traj=ut)
+                    if ut is not None:
+                        rec.check(torch.equal(ut, ut_keep), "lqr:mutates_u_traj", "LQR changed the caller's nominal input trajectory (%s)" % nlab)
                     nagain += 1
                     tag = "lqr_again"
                 else:
@@ -245,10 +263,13 @@ class LQRHist(Sub):
                     # new cost data / initial state for this solve (same dynamics object)
                     pr2 = problem(case["seed"] + arg + 1, nb, ns, nc, Th, ltv, case["tvq"], case["cross"], case["condq"], case["c1"])
                     Q, p, x0 = pr2["Q"], pr2["p"], pr2["x0"]
-                    ut = Tn(rs.randn(nb, Th, nc)) if flag else None
+                    ut, ut_keep, nlab = _nominal(rs, nb, Th, nc, flag, arg)
+                    rec.label(nlab)
                     with rec.sut("LQR"):
                         lqr = pp.module.LQR(sysm, Tn(Q), Tn(p), Th)
                         x, u, cost = lqr(Tn(x0), u_traj=ut)
+                    if ut is not None:
+                        rec.check(torch.equal(ut, ut_keep), "lqr:mutates_u_traj", "LQR changed the caller's nominal input trajectory (%s)" % nlab)
                     cur = (Q, p, Th)
                     tag = "lqr"
                 nsolve += 1
